@@ -308,6 +308,25 @@ func runProj(c maskCase, out *hx.Out) {
 		after, _ := col.Get("a")
 		o.Post = mini.Abs(after)
 	})
+	// a path that continues through a map: also through a map whose values are MESSAGES and which is populated
+	// (the miniature schema has a string map only; the concrete probe keeps the no-panic clause honest for both)
+	for _, pth := range c.Mask.Paths {
+		if len(pth) == 2 && pth[0] == "m" {
+			probe := &testproto.TestAllTypes{MapStringNestedMessage: map[string]*testproto.TestAllTypes_NestedMessage{"k": {A: 1}}}
+			pm := &fieldmaskpb.FieldMask{Paths: []string{"map_string_nested_message.a"}}
+			emit("probe.map-of-messages", func(o *projObs) {
+				o.Msg, o.Post = mini.Empty(), mini.Empty()
+				o.Valid = hx.Code(masks.NewResponseFilter(masks.WithFieldMask(pm)).Validate(probe))
+				masks.NewResponseFilter(masks.WithFieldMask(pm)).FilterClone(probe)
+				masks.NewResponseFilter(masks.WithFieldMask(pm)).Filter(proto.Clone(probe))
+				resource.NewValue(resource.WithInitialValue(probe)).Get(resource.WithReadMask(pm))
+				col := resource.NewCollection(resource.WithInitialRecord("a", probe))
+				col.Get("a", resource.WithReadMask(pm))
+				col.List(resource.WithReadMask(pm))
+			})
+			break
+		}
+	}
 	if valid != "OK" {
 		// a panic inside Pull's forwarding goroutine cannot be recovered by the caller and would
 		// take the harness down with it; the same filter code is exercised by the Get vias above
